@@ -154,6 +154,7 @@ def _second_loop_scenario(rng, i):
 fam(ScenarioFamily('second_loop', ('C08',), _second_loop_scenario, 200, 2000))
 fam(ScenarioFamily('gather', ('C04',), gen.gather_scenario, 300, 3000))
 fam(ScenarioFamily('late_on', ('C01', 'C09', 'C11', 'C03'), gen.late_on_scenario, 300, 3000))
+fam(EnumFamily('double_cancel_enum', ('C06', 'C10', 'C02'), gen.double_cancel_base, gen.double_cancel_derive, 8, 120, 40, 150))
 fam(EnumFamily('waitfor_enum', ('C15',), gen.waitfor_base, gen.waitfor_derive, 16, 200, 40, 120))
 fam(EnumFamily('timeout_enum', ('C10', 'C08', 'C02', 'C06'), gen.timeout_base, gen.timeout_derive, 24, 250, 40, 150))
 
@@ -408,3 +409,30 @@ CHECKS['C14'].families.append('single')
 CHECKS['C14'].families.append('shapes')
 CHECKS['C14'].families.append('stop_enum')  # dispatches (from handlers, forwards, top-level code) to a bus that is stopping / stopped
 CHECKS['C14'].floors['c14_noloop_dispatches'] = {'quick': 50, 'thorough': 500}
+
+
+for _p in ('C06', 'C10', 'C02'):
+    CHECKS[_p].families.append('double_cancel_enum')  # a second cancellation while the first one is still being cleaned up
+
+# ---- what the families added after the first build contribute (kept next to the registrations above; goes into the evidence text)
+_ALSO = {
+    'C01': 'handlers registered while the program runs (required / optional / forbidden deliveries by registration instant), one function object registered on several buses / patterns, same-name buses, awkward exception classes (unhashable, two-argument, chained)',
+    'C02': 'timeout programs (handlers that need time to unwind, forwards to a second bus, blocking sync siblings); the F1 exception applies only when the bus\'s own run loop had taken the overtaken event',
+    'C03': 'handlers registered late, events awaited by several parties, deep fire-and-forget chains under tiny history limits',
+    'C04': 'children awaited through asyncio.gather helper tasks, awaited twice / by siblings / although dispatched by top-level code, explicit parents',
+    'C05': 'stop() programs with long in-handler awaits; every dequeue records whether the drain\'s awaited event was already complete (F0 covers only entries taken before that)',
+    'C07': 're-dispatch of the same object to the same and to other buses (reach set and path re-evaluated), buses created under one requested name, forwarding under small history limits',
+    'C08': 'every complete event re-observed and awaited from a SECOND event loop after the first one was closed; accessor calls on completed events; timeout programs',
+    'C09': 'events dispatched from the cancellation clean-up of timed-out handlers, explicit parents, handlers registered late',
+    'C10': 'forwards to a second (parallel) bus, blocking sync siblings (deadline window, delivery delayed by blocking stretches), clean-up dispatch, user-raised TimeoutError',
+    'C11': 'typed events with returned exceptions; unhashable / two-argument / chained exception objects; raise instants enumerated against a sibling\'s awaited child',
+    'C13': 'forwarded in-flight events under small limits, handler-less events',
+    'C14': 'stop() programs (dispatch to a stopping / stopped bus from handlers, forwards and actors); an event not in the queue when dispatch() returns counts as dropped',
+    'C15': 'timeout programs, in-handler awaits bounded by asyncio.wait_for placed at every instant, two concurrent callers (one leaving early); callers still blocked after W silent seconds are recorded before the harness probes',
+    'C16': 'stop(clear=True), double and two-bus stops, stop() from inside handlers, parallel buses, asyncio.Runner exit',
+    'C17': 'payloads without a JSON encoding (non-UTF-8 bytes, arbitrary objects, lone surrogates) count as failing writes',
+    'C19': 'timeout=None; 2-4 overlapping calls of one decorated function / method, each against its own timetable',
+    'C20': 'an unrelated class with the same __name__, a second function naming the same semaphore, 70 instance-scoped keys, cancellation k loop iterations after the victim\'s own acquisition instant with the load probe due',
+}
+for _p, _t in _ALSO.items():
+    CHECKS[_p].rule += ' | added later: ' + _t
